@@ -244,6 +244,10 @@ pub fn start_job(command: Arc<Command>) -> (Job, JoinHandle<()>) {
 								Control::ContinueTryGracefulRestart => {
 									trace!("continuing a graceful try-restart");
 
+									// the restart is carried out here, so it must not happen again when the
+									// replacement process ends
+									on_end_restart = None;
+
 									if let CommandState::Running { child, started, .. } = &mut command_state {
 										trace!("stopping child forcefully");
 										try_with_handler!(Box::into_pin(child.kill()).await);
